@@ -611,3 +611,17 @@ class Recorder2:
 
     def __call__(self, *args):
         self.sink.append(args)
+
+
+class AsyncRecorder:
+    """Awaitable-returning stand-in for a connect coroutine function."""
+
+    __symex_native__ = True
+
+    def __init__(self, sink):
+        self.sink = sink
+
+    def __call__(self, *args):
+        from symex.env import Done
+        self.sink.append(args)
+        return Done(None)
